@@ -90,6 +90,7 @@ func registerSigModel(ex *Explorer) {
 		in.storeInto(ec, ec.T, nv)
 		return nil
 	}
+	I[vrtPath+".SealEntry"] = func(in *Interp, fn *ssa.Function, a []Value) Value { return nil }
 	// fat103.Validate(e factom.Entry, expected map[factom.Bytes32]struct{}, flag int) error
 	I[fpkg+"/fat103.Validate"] = func(in *Interp, fn *ssa.Function, a []Value) Value {
 		f := in.F
